@@ -107,7 +107,8 @@ pub fn world() -> World {
         points.push(vec![x.clone(), x]);
         script.push(vec![1u64 << 62; 64]);
     }
-    let ga2 = mk(&[(0, 1), (1, 2), (2, 0)], &[false, false, false], &[0.75; 3], &[0, 1, 2], 3);
+    // same number of edges as A, but two loops: different dimension, dod and table
+    let ga2 = mk(&[(0, 1), (0, 1), (0, 1)], &[false, false, false], &[1.25; 3], &[0, 1], 3);
     let gb2 = mk(&kite(), &[false, true, false, false, false], &[1.25; 5], &[0, 3], 4);
     let ca2 = Case::new(&CaseSpec { g: ga2, mom_variant: 0, mass_variant: 0, label: "A'".into() }).expect("A' admissible");
     let cb2 = Case::new(&CaseSpec { g: gb2, mom_variant: 1, mass_variant: 0, label: "B'".into() }).expect("B' admissible");
@@ -223,11 +224,16 @@ pub fn apply(w: &World, rs: &mut Vec<Routed>, op: Op) -> Vec<u64> {
         Op::Rebuild { s } => {
             // in-place replacement: the new sampler occupies the memory of the old one
             rs[s] = route(&w.alt_cases[s], &w.alt_kins[s]).expect("alt sampler builds");
-            let out = match outcome_bits(&rs[s].sampler.sample(&w.points[s][1], &rs[s].ed, &Settings::META)) {
+            let ne = w.alt_cases[s].g.ne();
+            let mut x = sector_defaults(&w.alt_cases[s], &(0..ne).collect::<Vec<usize>>());
+            x[2 * ne - 2] = 0.375; // the lambda coordinate shared by all history points
+            let mut out = match outcome_bits(&rs[s].sampler.sample(&x, &rs[s].ed, &Settings::META)) {
                 Ok(b) => b,
                 Err(e) => vec![u64::MAX, fnv(&e)],
             };
+            out.push(rs[s].sampler.get_dimension().map(|d| d as u64).unwrap_or(u64::MAX));
             rs[s] = route(&w.cases[s], &w.kins[s]).expect("history sampler builds");
+            out.push(rs[s].sampler.get_dimension().map(|d| d as u64).unwrap_or(u64::MAX));
             out
         }
         Op::Cbor { s } => {
@@ -327,6 +333,42 @@ pub fn run_histories(ctx: &Ctx, acc: &mut Acc) {
                     acc.violate(format!("C17/settings-change-result/{s}/{xi}/{k}"), "return_metadata and print_debug_info do not change the numerical result", format!("sampler {s} point {xi}: settings {:?} changed loop momenta / u / v / jacobian", st), hist_case(&[]));
                 }
             }
+        }
+    }
+    // settings that make the stability test FAIL: debug output and metadata must not change the verdict either
+    {
+        let rs = fresh3(&w);
+        for s in 0..3 {
+            for x in &w.points[s] {
+                let verdict = |st: &Settings| -> String {
+                    match rs[s].sampler.sample_with(x, &rs[s].ed, st, &NullLogger) {
+                        Outcome::Ok(sm) => format!("Ok:{:?}", core_bits(&sm)),
+                        Outcome::Err(e) => format!("Err:{e}"),
+                        Outcome::Panic(p) => format!("Panic:{p}"),
+                    }
+                };
+                for tol in [0.0, 1e-300, -1.0] {
+                    let base = verdict(&Settings { stability: Some(tol), debug: false, metadata: false });
+                    for (dbg, meta) in [(true, false), (false, true), (true, true)] {
+                        acc.inc("settings_pairs_compared");
+                        let v = verdict(&Settings { stability: Some(tol), debug: dbg, metadata: meta });
+                        if v != base {
+                            acc.violate(format!("C17/settings-change-verdict/{s}/{dbg}/{meta}"), "return_metadata and print_debug_info do not change the result", format!("sampler {s}, matrix_stability_test = Some({tol:e}): debug={dbg}, metadata={meta} gives {} but the quiet run gives {}", &v[..v.len().min(40)], &base[..base.len().min(40)]), hist_case(&[]));
+                        }
+                    }
+                }
+            }
+        }
+        // from_rng draw count and equality with the x-space entry point for the third sampler too (odd D, two loops)
+        let dim = rs[2].sampler.get_dimension().unwrap_or(0);
+        let mut rng = Scripted { vals: w.script[2].clone(), pos: 0 };
+        let o = rs[2].sampler.sample_rng(&rs[2].ed, &Settings::META, &mut rng, &NullLogger);
+        if rng.pos != dim {
+            acc.violate("C17/from_rng-draws/2".into(), "generate_sample_from_rng draws exactly get_dimension() numbers", format!("third sampler (D=3, two loops): {} draws, get_dimension() = {dim}", rng.pos), hist_case(&[]));
+        }
+        let x: Vec<f64> = w.script[2].iter().cycle().take(dim).map(|&v| u64_to_unit(v)).collect();
+        if outcome_bits(&o) != outcome_bits(&rs[2].sampler.sample(&x, &rs[2].ed, &Settings::META)) {
+            acc.violate("C17/from_rng-equals-x-space/2".into(), "from_rng returns what from_x_space_point returns for those numbers", "third sampler: results differ".into(), hist_case(&[]));
         }
     }
     // all histories up to the depth: partitioned by the first operation over single-threaded worker processes
@@ -754,6 +796,23 @@ fn c18_graph(g: &oracle::graph::OGraph, acc: &mut Acc) -> Option<Sampler> {
         }
     }
     if finite {
+        // positional-struct format
+        match s.to_seq_value().and_then(|v| Sampler::from_seq_value(g.dim, v)) {
+            Ok(s2) => {
+                acc.inc("seq_roundtrips");
+                if s2.to_json_value() != v0 {
+                    acc.violate(key("seq-table"), "same table (format that writes structs positionally)", "table differs after a round trip through a format that writes structs as sequences".into(), case());
+                } else if sample0.is_some() {
+                    acc.inc("restored_samples_compared");
+                    if c18_sample_bits(g, &s2) != sample0 {
+                        acc.violate(key("seq-sample"), "restored sampler produces bit-identical samples", "a sample from the sampler restored through the positional-struct format differs".into(), case());
+                    }
+                }
+            }
+            Err(e) => {
+                acc.violate(key("seq-deserialise"), "deserialises (format that writes structs positionally)", format!("round trip through the positional-struct format failed: {e}"), case());
+            }
+        }
         let txt = s.to_json_string();
         match Sampler::from_json_str(g.dim, &txt) {
             Ok(s2) => {
@@ -836,10 +895,43 @@ pub fn run_c18(ctx: &Ctx) -> i32 {
             Err(_) => return,
         };
         let d = case.g.dim;
+        // a ragged signature (one row longer than the loop count; the surplus entry is never read) must survive as well
+        let mut ragged: Vec<Vec<isize>> = r.kin.sig.iter().map(|row| row.iter().map(|&x| x as isize).collect()).collect();
+        if let Some(last) = ragged.last_mut() {
+            last.push(7);
+        }
+        if let BuildOutcome::Ok(rs) = build(&r.graph, &ragged) {
+            let order: Vec<usize> = (0..case.g.ne()).collect();
+            let x = sector_defaults(&case, &order);
+            let want = outcome_bits(&rs.sample(&x, &r.ed, &Settings::META));
+            for (name, s2) in [("json", Sampler::from_json_str(d, &rs.to_json_string())), ("cbor", Sampler::from_cbor(d, &rs.to_cbor()))] {
+                acc.inc("ragged_signature_roundtrips");
+                let same = match &s2 {
+                    Ok(s2) => outcome_bits(&s2.sample(&x, &r.ed, &Settings::META)) == want,
+                    Err(_) => false,
+                };
+                if !same {
+                    acc.violate(
+                        format!("C18/ragged-signature/{name}/{:016x}", fnv(&graph_json(&case.g).to_string())),
+                        "restored sampler produces bit-identical samples",
+                        format!("sampler with a ragged loop signature (one row longer than the loop count) restored through {name} fails to load or samples differently"),
+                        point_case(&case, &r.kin, &x, &Settings::META, json!({"prop": "C18", "format": name, "ragged": true})),
+                    );
+                    return;
+                }
+            }
+        }
         let restored: Vec<(&str, Sampler)> = vec![
             ("json", match Sampler::from_json_str(d, &r.sampler.to_json_string()) { Ok(s) => s, Err(_) => return }),
             ("cbor", match Sampler::from_cbor(d, &r.sampler.to_cbor()) { Ok(s) => s, Err(_) => return }),
             ("json∘cbor", match Sampler::from_cbor(d, &r.sampler.to_cbor()).and_then(|s| Sampler::from_json_str(d, &s.to_json_string())) { Ok(s) => s, Err(_) => return }),
+            ("positional", match r.sampler.to_seq_value().and_then(|v| Sampler::from_seq_value(d, v)) {
+                Ok(s) => s,
+                Err(e) => {
+                    acc.violate(format!("C18/seq-deserialise/{:016x}", fnv(&graph_json(&case.g).to_string())), "deserialises (format that writes structs positionally)", format!("positional-struct round trip failed: {e}"), json!({"engine": "c18", "graph": graph_json(&case.g)}));
+                    return;
+                }
+            }),
         ];
         acc.inc("sampling_cases");
         let ne = case.g.ne();
@@ -884,7 +976,7 @@ pub fn run_c18(ctx: &Ctx) -> i32 {
         evaluations: acc.get("samplers") + acc.get("restored_samples_compared"),
         distinct_nontrivial: acc.get("samplers"),
         exhaustive: true,
-        bounds: json!({"formats": ["serde_json (float_roundtrip)", "ciborium"], "G-small": "E<=3", "D": tier.pick("3,4", "1..6")}),
+        bounds: json!({"formats": ["serde_json (float_roundtrip)", "ciborium", "value tree with positional structs (harness)"], "G-small": "E<=3", "D": tier.pick("3,4", "1..6")}),
         assumptions: vec!["JSON cannot carry NaN/inf: samplers whose normalisation is non-finite (dod = 0) are round-tripped through CBOR only".into()],
         extra: Default::default(),
     };
